@@ -2,6 +2,20 @@
 """writes MANIFEST.json from the table below (kept in one place so that it stays valid)"""
 import json
 CHECKS = {
+ "C02": dict(
+   text="Proof over an arbitrary Q-module, for EVERY right-hand side f, time, state, step of either sign and any stale content of the stage "
+        "storage, about Lean models of compute_step / RungeKuttaIntegrator.step / ExplicitSymplecticIntegrator.step and of the accept/retry "
+        "logic of __call__: the masked stage sum is the full sum; for an explicit table the slopes left in the storage satisfy "
+        "k_i = f(t + c_i h, y + h sum_j a_ij k_j) (computeStep_spec, induction over the stage loop); the increment is h sum b_i k_i on the "
+        "generic and on the FSAL branch; the shipped explicit tables (regenerated) are strictly lower triangular and DOPRI45 is the only "
+        "FSAL one; an implicit call that returns hands back an attempt whose Newton flag was set, otherwise it raises after exactly 1+64 "
+        "attempts. Tied to the code by comparing step() and __call__ sequences of all 32 methods in float32/64/longdouble on random "
+        "polynomial right-hand sides with the exact rational model value and with the Runge-Kutta definition; returned implicit stages are "
+        "substituted into the stage equations exactly.",
+   note="Trusted: Lean kernel, standard axioms, translate.py (tables), harness. Rounding of the vector kernels is bounded by 2000 eps x magnitude "
+        "in the comparison, not formalised; the meaning of the nonlinear solver's precision is C15's.",
+   technique="Lean 4 proof (induction over the stage loop in an arbitrary module; case analysis of the retry loop) + exact-rational differential correspondence",
+   design="5 (C02)"),
  "C12": dict(
    text="Partial proof on the loop model of C03 with an environment that may raise at any iteration: for EVERY fault position the recorded "
         "times and step after the fault are exactly those of the fault-free run stopped after the accepted iterations (loop_fault_prefix), "
